@@ -333,6 +333,20 @@ def run_c09(ck, ctx):
     if not want <= got:
         ck.violation('cli_illegal', {'what': 'illegal words are not reported at their offsets', 'want': sorted(want), 'got': sorted(got),
                                      'input_hex': data.hex(), 'args': 'check all its'})
+    # the state is carried across packets and heartbeat frames: an HBF that ends inside a packet (no TDT, no DDW0)
+    # leaves the link in the data phase, where the IHW that opens the next HBF is not a legal word
+    for mode in (['check', 'sanity', 'its'], ['check', 'all', 'its']):
+        pk = [G.Pkt(dict(orbit=30, page=0), [G.ihw(7), G.tdh(trig=3, orbit=30), G.dw(0x20, b'\x01' * 9)]),
+              G.Pkt(dict(orbit=30, page=1, stop=1), [], raw_payload=b''),
+              G.Pkt(dict(orbit=31, page=0), [G.ihw(7), G.tdh(trig=3, orbit=31), G.dw(0x20, b'\x02' * 9), G.tdt(1)]),
+              G.Pkt(dict(orbit=31, page=1, stop=1), [G.ddw0()])]
+        data = G.encode(pk)
+        at = pk[0].size() + pk[1].size() + 64
+        r = L.run_cli(mode, data)
+        ck.case(('cli_carried_state', tuple(mode)))
+        if not any(e[0] == at for e in r.errors):
+            ck.violation('cli_illegal', {'what': 'the word state is not carried across packets: an IHW arriving while the link is in the data phase is not reported at that word',
+                                         'offset': at, 'got': sorted((e[0], e[1]) for e in r.errors), 'input_hex': data.hex(), 'args': ' '.join(mode)})
     # … also when the very same illegal word comes back in the same slot of consecutive HBFs (a stuck bit):
     # single-successor states rely on the sanity code of the expected word type at *every* occurrence
     for slot, mk in (('ihw', lambda: bytes([0xC0, 0x01]) + bytes(7) + b'\xE1'),
@@ -424,6 +438,7 @@ def run_c10(ck, ctx):
     for hi in range(nh):
         f = base_rdh(R)
         ln = R.choice([2, 3, 5, 10, 40, 200]) if tier == 'quick' else R.choice([2, 5, 40, 400, 3000])
+        if hi % 10 == 3: ln = R.choice([300, 520, 700, 1100])      # long histories: counters far beyond 8 bits
         hist = []
         page, orbit, trig, fee = 0, f['orbit'], f['trig'], f['fee']
         for i in range(ln):
